@@ -247,6 +247,9 @@ func (n *Node) Audit() error {
 			// pruned bodies are allowed (C19); header must still be there
 		} else if b.ID() != idx.ID || b.ParentID != nd.Block.ParentID {
 			return fmt.Errorf("Block(%v) returns a different block", idx)
+		} else if !bytes.Equal(Enc(types.V2Block(b)), Enc(types.V2Block(nd.Block))) {
+			// (a block id does not cover the whole body: a v2 id does not bind payout values or the v2 height)
+			return fmt.Errorf("Block(%v) has the right id but a body that differs from the block that was validated", idx)
 		}
 		cs, ok := n.CM.State(idx.ID)
 		if !ok {
